@@ -148,6 +148,39 @@ Theorem c24_config : forall x,
 Proof. exact create_schedule_ok. Qed.
 Print Assumptions c24_config.
 
+(* Whenever the attributes are well formed ("HH:MM:SS" times, duration 0..10^8) the schedule
+   create_schedule builds IS the one the element denotes ([denote], written from the property
+   text): same start, end, offset and days; a missing start gives the invalid schedule; an end
+   not after the start is rejected.  [denotes D_unjudged _] is True: ill-formed text is not judged. *)
+Theorem c24_config_denotes : forall x,
+  denotes (denote (x_start x) (x_end x) (x_utc x) (x_dur x) (x_sd x) (x_ed x)) (observe (create_schedule x)).
+Proof. exact create_schedule_denotes. Qed.
+Print Assumptions c24_config_denotes.
+
+(* The configured path end to end for daily schedules: element -> create_schedule -> polling,
+   any initial flag, arbitrary instants: the activity is that of the denoted schedule. *)
+Theorem c24_configured_daily : forall x prev ts st e utc sd ed,
+  denote (x_start x) (x_end x) (x_utc x) (x_dur x) (x_sd x) (x_ed x) = D_sched st (Some e) utc sd ed ->
+  sd < 0 -> e < T62 -> fits64 (utc * minute) = true ->
+  forallb (fun t => (0 <=? local utc t) && (local utc t <? T62)) ts = true ->
+  c24_ok_cfgrun (x_start x) (x_end x) (x_utc x) (x_dur x) (x_sd x) (x_ed x) ts
+                (observe_run (configured_run x prev ts)) = true.
+Proof. exact configured_daily_ok. Qed.
+Print Assumptions c24_configured_daily.
+
+(* Non-vacuity at midnight: start_time="00:00:00" (0 ticks) is well formed, denotes and yields a
+   valid schedule that is active when polled; likewise mo 00:00:00 .. fr 18:00:00, which opens at
+   Monday 00:00. *)
+Theorem c24_config_midnight_nonvacuous :
+  denote (x_start midnight_x) (x_end midnight_x) (x_utc midnight_x) (x_dur midnight_x) (x_sd midnight_x)
+         (x_ed midnight_x) = D_sched 0 (Some (hms_ns 23 59 59)) 0 (-1) (-1) /\
+  create_schedule midnight_x = CS_ok (mkSched 0 (hms_ns 23 59 59) 0 0 (-1) (-1)) /\
+  configured_run midnight_x false (poll sunday ns_minute 3) = CR_bits [true; true; true] /\
+  create_schedule midnight_week_x = CS_ok (mkSched 0 (hms_ns 18 0 0) 0 0 1 5) /\
+  configured_run midnight_week_x false (poll (at_ 0 23 59 0) ns_minute 3) = CR_bits [false; true; true].
+Proof. exact midnight_nonvacuous. Qed.
+Print Assumptions c24_config_midnight_nonvacuous.
+
 (* ---------------------------------------------------------------- non-vacuity *)
 
 (* Monday-Friday 09:00-17:00 at UTC+60 polled every minute for eight days from a Sunday: all
